@@ -52,6 +52,19 @@ fn limits() -> Vec<usize> {
     vec![0, 1, 2, 3, 4, 5, 7, 8, 30, 50, 63, 64, 65]
 }
 
+/// Scripted answers for one call of the generator whose expected range has `r` values: the midpoint of every bucket at
+/// resolution r (one answer per expected outcome; the first r entries, which the coverage accounting relies on), then at
+/// resolution r + 1 and the two ends of the unit interval at resolution 4r + 4. Were the range one value wider or narrower than
+/// expected (an inclusive bound, an end moved by one), some of these answers land on the value that should not exist.
+fn fracs(r: usize) -> Vec<(u64, u64)> {
+    let r = r as u64;
+    let mut v: Vec<(u64, u64)> = (0..r).map(|j| (j, r)).collect();
+    v.extend((0..=r).map(|j| (j, r + 1)));
+    v.push((0, 4 * r + 4));
+    v.push((4 * r + 3, 4 * r + 4));
+    v
+}
+
 /// (to_one, span_two) of the selection arithmetic for `len` stored peers and limit `l` with per-half `h`
 fn offset_ranges(len: usize, h: usize) -> (usize, usize) {
     let middle = len / 2;
@@ -171,9 +184,9 @@ mod http {
                             let (to_one, span_two) = if n > limit { offset_ranges(n, limit / 2) } else { (1, 1) };
                             let mut seen_pairs: HashSet<(usize, usize)> = HashSet::new();
                             acc.cases += 1;
-                            for a in 0..to_one {
-                                for b in 0..span_two {
-                                    let mut rng = Scripted { fr: [(a as u64, to_one as u64), (b as u64, span_two as u64)], calls: 0 };
+                            for (a, fa) in fracs(to_one).into_iter().enumerate() {
+                                for (b, fb) in fracs(span_two).into_iter().enumerate() {
+                                    let mut rng = Scripted { fr: [fa, fb], calls: 0 };
                                     let (ip, port) = addr(v4, 9000);
                                     let r = std::panic::catch_unwind(std::panic::AssertUnwindSafe(|| {
                                         maps.handle_announce_request(&cfg, &mut rng, ValidUntil::new_with_now(SecondsSinceServerStart::new_raw(0), 100), CanonicalSocketAddr::new(SocketAddr::new(ip, 1)), req(port, AnnounceEvent::Stopped, *nw))
@@ -455,9 +468,9 @@ mod ws {
                         let (to_one, span_two) = if two_halves { offset_ranges(n, h) } else { (1, 1) };
                         let mut seen_pairs: HashSet<(usize, usize)> = HashSet::new();
                         acc.cases += 1;
-                        for a in 0..to_one {
-                            for b in 0..span_two {
-                                let mut rng = Scripted { fr: [(a as u64, to_one as u64), (b as u64, span_two as u64)], calls: 0 };
+                        for (a, fa) in fracs(to_one).into_iter().enumerate() {
+                            for (b, fb) in fracs(span_two).into_iter().enumerate() {
+                                let mut rng = Scripted { fr: [fa, fb], calls: 0 };
                                 let r = std::panic::catch_unwind(std::panic::AssertUnwindSafe(|| extract_response_peers(&mut rng, &map, m, sender_key, |_, v| *v)));
                                 acc.evals += 1;
                                 let case = json!({"tracker": "ws", "permuted": permuted, "n": n, "max": m, "sender_position": s, "offsets": [a, b]});
@@ -469,7 +482,7 @@ mod ws {
                                         }
                                         acc.outcomes.insert(fp64(&(peers.len(), m, n.min(70), 4u8)));
                                         // record where the two windows started, from the unfiltered positions
-                                        if two_halves && !peers.is_empty() {
+                                        if two_halves && !peers.is_empty() && a < to_one && b < span_two {
                                             seen_pairs.insert((a, b));
                                         }
                                     }
